@@ -951,7 +951,8 @@ Proof.
   assert (Hx : In x (residual (class_of (top_patterns c) (e_host e) true) (e_prefix e))).
   { apply residual_keeps. exact (class_of_intro _ _ (In_top_log c e Hin)). }
   destruct (unique_split _ _ x Hx eq_refl Hu) as (l1 & l2 & E & Hoth).
-  unfold host_get in E. rewrite E. unfold x. Show. rewrite step_multi; [reflexivity|assumption|].
+  unfold host_get in E. rewrite E. unfold x.
+  apply (step_multi l1 l2 false (lits (e_prefix e) ++ [PMulti false], HLog e) l0 L []); [assumption|].
   now apply harmless_log_other.
 Qed.
 
